@@ -3,8 +3,10 @@
    so it cannot diverge or get stuck on any tree); following a `$ref` consumes one unit of a fuel
    that counts only the nesting depth of followed references. *)
 From Coq Require Import List String Bool Arith.
-From Spec Require Import Base.Json Base.Url Codec.Types Codec.Codec Expand.Expand Expand.ExpandFacts.
+From Spec Require Import Base.Json Base.Url Codec.Types Codec.Gen_Tables Codec.Codec Codec.CodecFacts Expand.Expand Expand.ExpandFacts
+  Expand.ExpandSim Expand.ExpandSimCheck Expand.ExpandCycle Expand.ExpandElem Expand.ExpandSpecTerm Expand.ExpandTermG Expand.ExpandComplete Expand.ExpandExample.
 Import ListNotations.
+Local Open Scope string_scope.
 
 (* The pigeonhole, for every store, every loader, every option setting, every schema, every state:
    if fuel d runs out, then d pairwise distinct canonical references (outputs of normalizeURI), all
@@ -16,16 +18,50 @@ Theorem C04_out_of_fuel_needs_distinct_refs :
 Proof. exact exp_oof. Qed.
 Print Assumptions C04_out_of_fuel_needs_distinct_refs.
 
-(* Hence expansion never needs more fuel than there are canonical references: whenever all of them lie
-   in a finite set U (the references of finitely many documents resolved against finitely many bases),
-   fuel |U| + 1 is never exhausted — the result is a value or an error. *)
-Theorem C04_terminates :
-  forall E docs cwd OP ctx_base live U d s parents rroot base j,
-  (forall x, canonical_output x -> In x U) -> NoDup parents -> incl parents U ->
-  List.length U < List.length parents + d ->
-  exp E docs cwd OP ctx_base live d s parents rroot base j <> OOF.
-Proof. exact exp_terminates. Qed.
-Print Assumptions C04_terminates.
+(* Hence, relative to a finite reference graph (Expand/ExpandTermG.v): the references on the stack when fuel runs out are
+   references OF THE GRAPH (canonical forms of `$ref`s held by located schemas reachable from the start), so fuel above the
+   number of distinct references of the graph is never exhausted — for every store, state, stack without duplicates,
+   resolver root, SkipSchemas/AbsoluteCircularRef setting (strict mode; graph hypotheses decided by the verified checker).
+   (A bound in terms of ALL canonical references would say nothing: there are infinitely many.) *)
+Theorem C04_terminates_on_the_graph : forall E docs cwd OP ctx_base rid nodes live,
+  check_nodes E docs cwd OP ctx_base rid nodes = true ->
+  (forall lu ld, live = Some (lu, ld) -> doc_at docs cwd lu = Some ld) ->
+  o_cont OP = false ->
+  forall d s parents rroot base j,
+    NoDup parents -> List.length (refs_of nodes) < d ->
+    GN nodes base j -> Inv docs rid s -> Coh cwd rroot base ->
+    exp E docs cwd OP ctx_base live d s parents rroot base j <> OOF.
+Proof. exact checked_exp_terminates. Qed.
+Print Assumptions C04_terminates_on_the_graph.
+
+(* ... and when every reference of the graph is resolvable the expansion then RETURNS A RESULT: neither an error nor a
+   step outside the modelled fragment (Expand/ExpandComplete.v) *)
+Theorem C04_expansion_returns : forall E docs cwd OP ctx_base rid nodes live,
+  check_nodes E docs cwd OP ctx_base rid nodes = true -> check_resolvable E docs cwd OP ctx_base rid nodes = true ->
+  (forall lu ld, live = Some (lu, ld) -> doc_at docs cwd lu = Some ld) ->
+  o_cont OP = false ->
+  forall d s parents rroot base j,
+    NoDup parents -> List.length (refs_of nodes) < d ->
+    GN nodes base j -> Inv docs rid s -> Coh cwd rroot base ->
+    exists s' j', exp E docs cwd OP ctx_base live d s parents rroot base j = Done (s', j').
+Proof. exact checked_exp_succeeds. Qed.
+Print Assumptions C04_expansion_returns.
+
+(* non-vacuity: the cyclic two-document graph holds 5 references; fuel 6 suffices from any consistent state, any stack *)
+Example C04_example : List.length (refs_of ex_nodes) = 5 /\
+  forall abs s parents rroot, NoDup parents -> Inv ex_docs "" s -> Coh "/" rroot ex_root_url ->
+  exists s' j', exp gen_env ex_docs "/" (mkOpts false false abs) ex_root_url ex_live 6 s parents rroot ex_root_url ex_start = Done (s', j').
+Proof.
+  split; [vm_compute; reflexivity|]. intros abs s parents rroot Hnd Hs Hc.
+  assert (Hck : check_nodes gen_env ex_docs "/" (mkOpts false false abs) ex_root_url "" ex_nodes = true) by (destruct abs; vm_compute; reflexivity).
+  assert (Hres : check_resolvable gen_env ex_docs "/" (mkOpts false false abs) ex_root_url "" ex_nodes = true) by (destruct abs; vm_compute; reflexivity).
+  assert (Hlive : forall lu ld, ex_live = Some (lu, ld) -> doc_at ex_docs "/" lu = Some ld) by (intros lu ld E; inversion E; subst; vm_compute; reflexivity).
+  apply (C04_expansion_returns gen_env ex_docs "/" (mkOpts false false abs) ex_root_url "" ex_nodes ex_live Hck Hres Hlive eq_refl 6 s parents rroot ex_root_url ex_start Hnd).
+  - vm_compute. repeat constructor.
+  - vm_compute. tauto.
+  - exact Hs.
+  - exact Hc.
+Qed.
 
 (* fuel is consumed only by following references: the walk itself passes OutOfFuel on, it never creates it *)
 Theorem C04_walk_needs_no_fuel :
@@ -33,3 +69,38 @@ Theorem C04_walk_needs_no_fuel :
   walk E docs cwd OP ctx_base live follow j s parents rroot base = OOF -> from_follow follow parents.
 Proof. exact walk_oof. Qed.
 Print Assumptions C04_walk_needs_no_fuel.
+
+(* ---------- the whole of ExpandSpec (Expand/ExpandSpecTerm.v, ExpandTermG.v) ---------- *)
+(* the `$ref` chains of parameters, responses and path items: a chain that runs out of fuel exhibits as many pairwise
+   distinct canonical references as there was fuel (every hop puts one on the stack that was not on it) ... *)
+Theorem C04_chain_out_of_fuel_needs_distinct_refs : forall E docs cwd OP live fuel s parents rroot base kind m,
+  deref E docs cwd OP live fuel s parents rroot base kind m = OOF ->
+  exists ps, List.length ps = fuel /\ (NoDup parents -> NoDup (parents ++ ps)%list) /\ Forall canonical_output ps.
+Proof. exact deref_oof. Qed.
+Print Assumptions C04_chain_out_of_fuel_needs_distinct_refs.
+
+(* ... which are references of the graph of located elements, so that fuel above their number is never exhausted *)
+Theorem C04_chains_terminate_on_the_graph : forall E docs cwd OP live rid,
+  (forall lu ld, live = Some (lu, ld) -> doc_at docs cwd lu = Some ld) -> o_cont OP = false ->
+  forall GE : string -> string -> list (string * json) -> Prop,
+  (forall kind b m, GE kind b m -> get_str "$ref" m <> "" -> remove_key "$ref" m = []) ->
+  (forall kind b m b1 tm, GE kind b m -> get_str "$ref" m <> "" ->
+     sem_target_k E docs cwd kind (get_str "$ref" m) b = Some (b1, JObj tm) -> GE kind b1 tm /\ merge_over tm [] = tm) ->
+  (forall kind b m nref, GE kind b m -> get_str "$ref" m <> "" -> nuri (get_str "$ref" m) b = POk nref ->
+     keeps_resolver (get_str "$ref" m) b nref -> nbase cwd (strip_frag nref) = nbase cwd (strip_frag b)) ->
+  forall kind U fuel s parents rroot base m,
+  (forall x, eholder_ref GE x -> In x U) -> NoDup parents -> List.length U < fuel ->
+  GE kind base m -> Inv docs rid s -> Coh cwd rroot base ->
+  deref E docs cwd OP live fuel s parents rroot base kind m <> OOF.
+Proof. exact deref_terminatesGE. Qed.
+Print Assumptions C04_chains_terminate_on_the_graph.
+
+(* the composition over operations, path items and the four sections of a specification consumes no fuel: ExpandSpec can
+   only run out of fuel inside a schema expansion or inside a chain *)
+Theorem C04_composition_consumes_no_fuel : forall E docs cwd OP ctx_base live follow fuel root_url root s,
+  (forall s rr b j, follow s [] rr b j <> OOF) ->
+  (forall s rr b kind m, deref E docs cwd OP live fuel s [] rr b kind m <> OOF) ->
+  (forall j s k rr b, walk E docs cwd OP ctx_base live follow j s [k] rr b <> OOF) ->
+  expand_spec_with E docs cwd OP ctx_base live follow fuel root_url root s <> OOF.
+Proof. exact expand_spec_with_not_oof. Qed.
+Print Assumptions C04_composition_consumes_no_fuel.
